@@ -143,6 +143,7 @@ func newEnv(t failer, cs map[string]*ev.Collector, wanted map[modeKind]bool) *en
 	e.modes = append(e.modes, &mode{name: "leader", kind: mLeader, n: e.ref, sub: "leader"})
 	if want(mFollower) {
 		e.l2 = must(startNode("l2", t38.Opts{}))
+		e.l2.keepRunning = true
 		e.f = must(startNode("follower", t38.Opts{}))
 		e.f.follows = e.l2
 		if err := e.f.mustOK("FOLLOW", "127.0.0.1", itoa(e.l2.srv.Port)); err != nil {
@@ -1164,6 +1165,7 @@ func TestC15_DevMode(t *testing.T) {
 	if err != nil {
 		t.Fatalf("HARNESS: %v", err)
 	}
+	lead.keepRunning = true
 	defer lead.stopAsync()
 	ro, err := startNode("dev-readonly", t38.Opts{DevMode: true})
 	if err != nil {
